@@ -80,11 +80,15 @@ def tie(tier, seed, replay):
                     mism.append(dict(case=dict(cs, run=j), impl={bad[0]: isnap[bad[0]]}, model=None, spec={bad[0]: sg[bad[0]][1]}, kind="impl_violates_spec", known=None,
                                      what="parallel history: relation %s after run #%d differs from the specification" % (bad[0], j + 1)))
                     break
+    # programs with a BYODS relation (#[ds(eqrel | trrel | trrel_uf)]): its state lives only in the provider structure kept between runs
+    from .. import c13_byods
+    by = c13_byods.run(tier, seed)
+    mism += by["mismatches"]
     sample = [dict(program=r["text"], script=r["case"]["scripts"][-1], impl=[{k: v[1][:5] for k, v in prog.canon_snap(s).items()} for s in r["impl"][-1]["snaps"]] if r["impl"] and "snaps" in r["impl"][-1] else r["impl"]) for r in results[:2]]
-    return dict(evaluations=sum(len(r["case"]["scripts"]) for r in results) + lat["evaluations"], distinct_nontrivial=len(distinct) + lat["distinct"],
-                rule="PLAIN HALF: random programs (2/3 positive C01-style, 1/3 stratified with aggregates / negation) x histories run;run | run;push;run;push;run | run(empty);push;run;run with facts pushed into any relation incl. derived ones; every snapshot compared; non-trivial = history with at least two runs; distinct = distinct (program, history).  " + lat["rule"],
+    return dict(evaluations=sum(len(r["case"]["scripts"]) for r in results) + lat["evaluations"] + by["evaluations"], distinct_nontrivial=len(distinct) + lat["distinct"] + by["distinct"],
+                rule="PLAIN HALF: random programs (2/3 positive C01-style, 1/3 stratified with aggregates / negation) x histories run;run | run;push;run;push;run | run(empty);push;run;run with facts pushed into any relation incl. derived ones; every snapshot compared; non-trivial = history with at least two runs; distinct = distinct (program, history).  BYODS HALF (gen/c13_byods.py): programs of the C10 / C11 / C12 generators (eqrel, trrel, trrel_uf relations, binary and ternary) x histories run;run | run;push;run | run;run;push;run | run(empty);push;run;push;run, each compared with the fresh run of the same program on the union of the inputs (plain relations as sets; no model column).  " + lat["rule"],
                 samples=sample, distribution=dict(programs=len(results), history_shapes=hist, with_aggregates=sum(1 for r in results if r["case"]["agg"]), **lat["distribution"]),
                 mismatches=lat["mismatches"] + mism,
                 trusted_base=["FRONT hook + gen/dl.py plan translation; gen/prog.py generated crates", "Engine/Rerun.v models the program value between runs (stored indices kept, rows appended)"] + lat["trusted_base"],
                 assumptions=["facts pushed between runs are appended to the public Vec fields, as a user would"] + lat["assumptions"],
-                extra=dict(cases_skipped_model_too_slow=nskipped, parallel_histories=npar, **lat["extra"]))
+                extra=dict(cases_skipped_model_too_slow=nskipped, parallel_histories=npar, byods_histories=by["evaluations"], byods_distribution=by["distribution"], **lat["extra"]))
